@@ -1,5 +1,7 @@
 import SockModel.Model.TlsLemmas
 import SockModel.Model.HsLemmas
+import SockModel.Model.TlsBudget
+import SockModel.Model.TlsLogLemmas
 /-!
 # C18  TLS sockets encrypt, need a TLS peer, and always complete the handshake
 
@@ -1169,5 +1171,494 @@ example : 1 < Cfg.current.stepsMax := by decide
 
 end SockModel.Hs
 
+/-! ## C07 for the TLS glue: the timeout budget
+
+"... with T < 0 it returns only with a result, never 'nothing'; with T = 0 it never blocks; with T > 0 it ...
+blocks no longer than T in total, however many internal waits, partial sends or TLS handshake rounds it needs"
+(C07), which C18 demands "unchanged" of TLS sockets - for `Receive(timeout)` / `Send(timeout)` of the TLS glue,
+the handshake rounds that run inside them included.
+
+"Every wait issued during the call" is read off the **logging world** `logWorld W` (Model/TlsLog.lean): any
+world `W`, wrapped so that each `wait` is recorded (`WaitRec`: direction, timeout argument, clock when issued).
+`logging_is_transparent`: the wrapper changes nothing the model does.  The theorems quantify over every
+configuration `C` (round limit, asserts on/off, the legacy variants), every world `W`, every engine `E` (any
+interaction tree), every starting state `s` (any `lastError`, flags, `pendingSend`, log so far) and every
+buffer/size, unless a hypothesis says otherwise.  Hypotheses used, and only where stated:
+* `ZeroFree W` / `ClockOk W` (A-CLOCK) and `UnlimitedReady W` (A-POLL) - about the world (Model/TlsBudget.lean);
+* `Engine.FailStop E`, `BlockingRead E`, `WriteProgress E` (A-SSL) - about the engine; each is shown to be
+  needed by a witness (`stale_budget_after_callback_failure`, `stale_budget_after_empty_write`,
+  `unlimited_receive_needs_blocking_engine`). -/
 namespace SockModel.Tls
+open SockModel.Net
+
+variable {σ ω : Type}
+
+/-- logging does not change behaviour: the result of a call on the logging world is the result on the plain
+world, and so is the state once the log is forgotten - for single calls and for whole histories -/
+theorem logging_is_transparent (C : Cfg) (W : World ω) (E : Engine σ) (s : St σ ω) (l : List WaitRec) :
+    (∀ n t, (receiveT C (logWorld W) E (withLog s l) n t).1 = (receiveT C W E s n t).1 ∧
+            unlog (receiveT C (logWorld W) E (withLog s l) n t).2 = (receiveT C W E s n t).2) ∧
+    (∀ d t, (sendT C (logWorld W) E (withLog s l) d t).1 = (sendT C W E s d t).1 ∧
+            unlog (sendT C (logWorld W) E (withLog s l) d t).2 = (sendT C W E s d t).2) ∧
+    (∀ ops, unlog (run C (logWorld W) E (withLog s l) ops) = run C W E s ops) :=
+  ⟨fun n t => receiveT_unlog C W E (withLog s l) n t, fun d t => sendT_unlog C W E (withLog s l) d t,
+   fun ops => run_unlog C W E (withLog s l) ops⟩
+
+/-- **(T1) `T = 0`: "it never blocks".**  `Receive(…, 0)` and `Send(…, 0)` on a TLS socket issue only waits with
+the argument 0 - in the glue's own `HandleError` waits, inside `BioRead` (`Receive(fd, …, 0)`) and inside `BioWrite`
+(`SendTry`) - however many rounds and BIO calls the engine makes; the budget is still 0 afterwards; and in a world
+where a zero wait, `send` and `recv` take no time, no time passes at all. -/
+theorem tls_zero_never_blocks (C : Cfg) (W : World ω) (E : Engine σ) (s : LSt σ ω) :
+    (∀ n, (receiveT C (logWorld W) E s n 0).2.g.remainingTime = 0 ∧
+      (∃ new, logOf (receiveT C (logWorld W) E s n 0).2 = new ++ logOf s ∧ ∀ r ∈ new, r.timeout = 0) ∧
+      (ZeroFree W → W.now (receiveT C (logWorld W) E s n 0).2.w.1 = W.now s.w.1)) ∧
+    (∀ data, (sendT C (logWorld W) E s data 0).2.g.remainingTime = 0 ∧
+      (∃ new, logOf (sendT C (logWorld W) E s data 0).2 = new ++ logOf s ∧ ∀ r ∈ new, r.timeout = 0) ∧
+      (ZeroFree W → W.now (sendT C (logWorld W) E s data 0).2.w.1 = W.now s.w.1)) := by
+  have F := zeroFrame (σ := σ) W E (logOf s) (W.now s.w.1)
+  have h0 : ZeroInv W (logOf s) (W.now s.w.1) (setTimeout s 0) := ⟨rfl, LogAll.refl _, fun _ => rfl⟩
+  exact ⟨fun n => post_same (F.receiveT C s n 0 h0), fun data => post_same (F.sendT C s data 0 h0)⟩
+
+/-- **(T2a) `T < 0`: every wait is unlimited.**  With a negative timeout every wait issued has the argument `T`
+itself (the glue's waits, `Receive(fd, …, T)`) or -1 (`SendAll`), and the budget is still `T` afterwards: no path
+turns "as long as it takes" into a bounded wait. -/
+theorem tls_unlimited_waits (C : Cfg) (W : World ω) (E : Engine σ) (s : LSt σ ω) (T : Int) (hT : T < 0) :
+    (∀ n, (receiveT C (logWorld W) E s n T).2.g.remainingTime = T ∧
+      ∃ new, logOf (receiveT C (logWorld W) E s n T).2 = new ++ logOf s ∧ ∀ r ∈ new, r.timeout = T ∨ r.timeout = -1) ∧
+    (∀ data, (sendT C (logWorld W) E s data T).2.g.remainingTime = T ∧
+      ∃ new, logOf (sendT C (logWorld W) E s data T).2 = new ++ logOf s ∧ ∀ r ∈ new, r.timeout = T ∨ r.timeout = -1) := by
+  have F := unlFrame (σ := σ) W E T hT (logOf s)
+  have h0 : UnlInv T (logOf s) (setTimeout s T) := ⟨rfl, LogAll.refl _⟩
+  exact ⟨fun n => post_same (F.receiveT C s n T h0), fun data => post_same (F.sendT C s data T h0)⟩
+
+/-- A-SSL for an unlimited budget: the BIO callbacks block until they have something (or throw), so `SSL_read`
+never answers WANT_READ / WANT_WRITE, and a success hands out at least one byte -/
+def BlockingRead (E : Engine σ) : Prop :=
+  ∀ s n, AllLeaves (fun a o _ => a ≠ .wantRead ∧ a ≠ .wantWrite ∧ (a.isDone = true → o ≠ [])) (E.sslRead s n)
+
+/-- `HandleLastError` under an unlimited budget, in a world whose unlimited waits only come back ready: it never
+answers "timed out" -/
+theorem handleLastError_unlimited {W : World ω} (hW : UnlimitedReady W) (s : St σ ω) (hneg : s.g.remainingTime < 0) :
+    (∃ s', handleLastError W s = (.ok true, s') ∧ s'.g.remainingTime < 0) ∨ (∃ e s', handleLastError W s = (.exn e, s')) := by
+  unfold handleLastError
+  cases hl : s.g.lastError with
+  | none => left; exact ⟨_, rfl, hneg⟩
+  | wantRead =>
+    left
+    have hr := hW s.w .rd _ hneg
+    refine ⟨setLastError (waitUnder W s .rd).2 .none, ?_, ?_⟩
+    · simp only [handleError, waitUnder, hr]
+    · show underDeadline _ _ _ < 0
+      rw [underDeadline_nonpos (by omega)]; exact hneg
+  | wantWrite =>
+    left
+    have hr := hW s.w .wr _ hneg
+    refine ⟨setLastError (waitUnder W s .wr).2 .none, ?_, ?_⟩
+    · simp only [handleError, waitUnder, hr]
+    · show underDeadline _ _ _ < 0
+      rw [underDeadline_nonpos (by omega)]; exact hneg
+  | zeroReturn => right; exact ⟨_, _, rfl⟩
+  | syscall => right; exact ⟨_, _, rfl⟩
+  | ssl => right; exact ⟨_, _, rfl⟩
+
+/-- **(T2b) `T < 0`: "it returns only with a result, never 'nothing'" - `Receive`.**  For every starting state
+(whatever `lastError` an earlier call left behind): in a world whose unlimited waits only come back ready (A-POLL),
+with an engine that does not answer WANT_READ / WANT_WRITE when its callbacks block (A-SSL, `BlockingRead`),
+`Receive(…, T<0)` returns at least one byte or throws - never `nullopt`, and the `assert(timeout >= 0)` does not
+fire.  What the model allows otherwise is `unlimited_receive_needs_blocking_engine`. -/
+theorem tls_unlimited_receive_never_nothing (C : Cfg) (hpos : 0 < C.stepsMax) {W : World ω} (hW : UnlimitedReady W)
+    (E : Engine σ) (hE : BlockingRead E) (s : St σ ω) (n : Nat) (T : Int) (hT : T < 0) :
+    (∃ bs s', bs ≠ [] ∧ receiveT C W E s n T = (.ok bs, s')) ∨ (∃ e s', receiveT C W E s n T = (.exn e, s')) := by
+  have key : (∃ bs s', bs ≠ [] ∧ tlsRead C W E (setTimeout s T) n = (.ok bs, s')) ∨
+      (∃ e s', tlsRead C W E (setTimeout s T) n = (.exn e, s')) := by
+    unfold tlsRead
+    rcases handleLastError_unlimited hW (setTimeout s T) hT with ⟨s1, h1, _⟩ | ⟨e, s1, h1⟩
+    · rw [h1]
+      simp only
+      obtain ⟨i, hi⟩ : ∃ i, C.stepsMax = i + 1 := ⟨C.stepsMax - 1, by omega⟩
+      rw [hi]
+      unfold readLoop
+      have hs := interp_spec (W := W) _ _ (hE s1.e n) s1
+      unfold readRound
+      rcases hint : interp W s1 (E.sslRead s1.e n) with ⟨o, s2⟩
+      rw [hint] at hs
+      cases o with
+      | exn e => exact absurd rfl (hs.2.2.2 e)
+      | abort m => exact absurd rfl (hs.2.1 m)
+      | ok p =>
+        obtain ⟨ans, out⟩ := p
+        obtain ⟨hnr, hnw, hdone⟩ := hs.2.2.1 ans out rfl
+        cases ans with
+        | done k => left; exact ⟨out, _, hdone rfl, rfl⟩
+        | wantRead => exact absurd rfl hnr
+        | wantWrite => exact absurd rfl hnw
+        | zeroReturn =>
+          obtain ⟨e, s', hr⟩ := handleResult_fatal (W := W) (noteCall E s2 true [] .zeroReturn) .zeroReturn (Or.inl rfl)
+          right; exact ⟨e, s', by simp [hr]⟩
+        | syscallErr =>
+          obtain ⟨e, s', hr⟩ := handleResult_fatal (W := W) (noteCall E s2 true [] .syscallErr) .syscallErr (Or.inr (Or.inl rfl))
+          right; exact ⟨e, s', by simp [hr]⟩
+        | sslErr =>
+          obtain ⟨e, s', hr⟩ := handleResult_fatal (W := W) (noteCall E s2 true [] .sslErr) .sslErr (Or.inr (Or.inr rfl))
+          right; exact ⟨e, s', by simp [hr]⟩
+    · rw [h1]; right; exact ⟨e, s1, rfl⟩
+  unfold receiveT
+  rcases key with ⟨bs, s', hne, h⟩ | ⟨e, s', h⟩
+  · left
+    refine ⟨bs, s', hne, ?_⟩
+    rw [h]
+    cases bs with
+    | nil => exact absurd rfl hne
+    | cons b bs => rfl
+  · right; exact ⟨e, s', by rw [h]⟩
+
+/-- **(T2c) `T < 0`: "never 'nothing'" - `Send`.**  For every starting state that respects the retry rule: in a
+world whose unlimited waits only come back ready, with an engine whose every `ssl_write` makes progress when its
+callbacks block (`WriteProgress`, the A-SSL hypothesis of `tlsWrite_complete`), `Send(data, T<0)` reports the whole
+buffer or throws - never a short count. -/
+theorem tls_unlimited_send_complete (C : Cfg) (hfix : C.fixRoundReset = true) (hpos : 0 < C.stepsMax) {W : World ω}
+    (hW : UnlimitedReady W) (E : Engine σ) (hE : WriteProgress E) (s : St σ ω) (data : Bytes)
+    (hp : s.g.pendingSend = [] ∨ s.g.pendingSend = data) (T : Int) (hT : T < 0) :
+    (∃ s', sendT C W E s data T = (.ok data.length, s')) ∨ (∃ e s', sendT C W E s data T = (.exn e, s')) := by
+  have key : (∃ s', tlsWrite C W E (setTimeout s T) data = (.ok data.length, s')) ∨
+      (∃ e s', tlsWrite C W E (setTimeout s T) data = (.exn e, s')) := by
+    rcases handleLastError_unlimited hW (setTimeout s T) hT with ⟨s1, h1, _⟩ | ⟨e, s1, h1⟩
+    · -- after the gate the call is the call from a state without a cached error
+      have hk := handleError_keeps (W := W) (setTimeout s T) (setTimeout s T).g.lastError
+      have hl1 : s1.g.lastError = .none ∧ s1.g.pendingSend = s.g.pendingSend := by
+        unfold handleLastError at h1
+        rcases hh : handleError W (setTimeout s T) (setTimeout s T).g.lastError with ⟨o, s0⟩
+        rw [hh] at h1 hk
+        cases o with
+        | ok b =>
+          cases b with
+          | true =>
+            simp only [Prod.mk.injEq, true_and] at h1
+            subst h1
+            exact ⟨rfl, hk.1.2.1⟩
+          | false => simp at h1
+        | exn e => simp at h1
+        | abort m => simp at h1
+      have heq : tlsWrite C W E (setTimeout s T) data = tlsWrite C W E s1 data := by
+        have h2 : handleLastError W s1 = (.ok true, s1) := by
+          unfold handleLastError
+          rw [hl1.1]
+          simp only [handleError]
+          congr 1
+          cases s1 with
+          | mk g e w =>
+            cases g
+            simp only [setLastError] at hl1 ⊢
+            simp_all
+        unfold tlsWrite
+        rw [h1, h2]
+      rw [heq]
+      exact tlsWrite_complete C hfix hpos E hE s1 data hl1.1 (by rw [hl1.2]; exact hp)
+    · right
+      exact ⟨e, s1, by unfold tlsWrite; rw [h1]⟩
+  unfold sendT
+  rcases key with ⟨s', h⟩ | ⟨e, s', h⟩
+  · left
+    rw [h]
+    simp only
+    split <;> exact ⟨_, rfl⟩
+  · right; exact ⟨e, s', by rw [h]⟩
+
+/-- **"must not turn timeout >= 0 into < 0"** (wait.h).  For `T ≥ 0`, in EVERY world - whatever its clock does,
+backwards included - and for every engine: no wait is ever issued with a negative (= unlimited) argument, and the
+budget left behind is non-negative. -/
+theorem tls_budget_never_negative (C : Cfg) (W : World ω) (E : Engine σ) (s : LSt σ ω) (T : Int) (hT : 0 ≤ T) :
+    (∀ n, 0 ≤ (receiveT C (logWorld W) E s n T).2.g.remainingTime ∧
+      ∃ new, logOf (receiveT C (logWorld W) E s n T).2 = new ++ logOf s ∧ ∀ r ∈ new, 0 ≤ r.timeout) ∧
+    (∀ data, 0 ≤ (sendT C (logWorld W) E s data T).2.g.remainingTime ∧
+      ∃ new, logOf (sendT C (logWorld W) E s data T).2 = new ++ logOf s ∧ ∀ r ∈ new, 0 ≤ r.timeout) := by
+  have F := nonnegFrame (σ := σ) W E (logOf s)
+  have h0 : NonnegInv (logOf s) (setTimeout s T) := ⟨hT, LogAll.refl _⟩
+  exact ⟨fun n => post_same (F.receiveT C s n T h0), fun data => post_same (F.sendT C s data T h0)⟩
+
+/-- what a limited call guarantees, with `t0` the clock at entry: every wait issued has an argument `t` with
+`0 ≤ t ≤ T - (clock at that wait - t0)`; the call returns no later than `t0 + T`; the budget left is non-negative;
+no callback failure is left stashed; and unless the call ends with an exception the budget left is what is left
+of `T` -/
+def LimitedOk (W : World ω) (T : Int) (s : LSt σ ω) {α : Type} (r : Out α × LSt σ ω) : Prop :=
+  (∃ new, logOf r.2 = new ++ logOf s ∧
+    ∀ w ∈ new, 0 ≤ w.timeout ∧ w.timeout ≤ T - (w.before - W.now s.w.1)) ∧
+  W.now r.2.w.1 ≤ W.now s.w.1 + T ∧
+  0 ≤ r.2.g.remainingTime ∧
+  r.2.g.pendingError = none ∧
+  ((∃ e, r.1 = .exn e) ∨ r.2.g.remainingTime ≤ T - (W.now r.2.w.1 - W.now s.w.1))
+
+theorem limitedOk_of_post {W : World ω} {T : Int} {s : LSt σ ω} {α : Type} {r : Out α × LSt σ ω}
+    (h : Post (LimGood W (W.now s.w.1 + T) (logOf s)) (LimWeak W (W.now s.w.1 + T) (logOf s)) r.1 r.2) :
+    LimitedOk W T s r := by
+  have conv : ∀ l, LogAll (InBudget (W.now s.w.1 + T)) (logOf s) l →
+      ∃ new, l = new ++ logOf s ∧ ∀ w ∈ new, 0 ≤ w.timeout ∧ w.timeout ≤ T - (w.before - W.now s.w.1) := by
+    intro l ⟨new, h1, h2⟩
+    refine ⟨new, h1, ?_⟩
+    intro w hw
+    obtain ⟨a, b⟩ := h2 w hw
+    exact ⟨a, by omega⟩
+  rcases h with ⟨h1, h2, h3, h4⟩ | ⟨⟨h1, h2, h3⟩, h4, e, he⟩
+  · exact ⟨conv _ h3, by omega, h1, h4, Or.inr (by omega)⟩
+  · exact ⟨conv _ h3, h2, h1, h4, Or.inl ⟨e, he⟩⟩
+
+/-- **(T3) `T > 0`: "blocks no longer than T in total, however many internal waits, partial sends or TLS handshake
+rounds it needs".**  Under A-CLOCK (`ClockOk W`: the clock does not run backwards, a wait with argument `t ≥ 0`
+comes back after at most `t` ms, `send`/`recv` take no time), for every engine that stops after a failed callback
+and never writes zero bytes (A-SSL, `Engine.FailStop`), from every state in which no callback failure is stashed (an
+invariant of every call history on such an engine: `no_failure_left_stashed`, and the conclusion here), for every number of rounds (`C.stepsMax` is arbitrary), BIO reads and writes, partial
+sends and WANT_READ / WANT_WRITE answers: every wait of `Receive(…, T)` / `Send(…, T)` has an argument `t` with
+`0 ≤ t ≤ T - (now at that wait - now at entry)`, hence the call returns no later than entry + T; the budget never
+becomes negative. -/
+theorem tls_limited_budget (C : Cfg) {W : World ω} (hc : ClockOk W) (E : Engine σ) (hE : E.FailStop) (s : LSt σ ω)
+    (hp : s.g.pendingError = none) (T : Int) (hT : 0 < T) :
+    (∀ n, LimitedOk W T s (receiveT C (logWorld W) E s n T)) ∧
+    (∀ data, LimitedOk W T s (sendT C (logWorld W) E s data T)) := by
+  have F := limFrame (σ := σ) hc E hE (W.now s.w.1 + T) (logOf s)
+  have h0 : LimGood W (W.now s.w.1 + T) (logOf s) (setTimeout s T) :=
+    ⟨Int.le_of_lt hT, Int.le_refl _, LogAll.refl _, hp⟩
+  exact ⟨fun n => limitedOk_of_post (F.receiveT C s n T h0), fun data => limitedOk_of_post (F.sendT C s data T h0)⟩
+
+/-- the entry condition of (T3), "no callback failure is stashed", is an invariant of every history of `Receive` /
+`Send` calls with ANY timeouts on a socket whose engine is fail-stop: a fresh socket has none, and no call leaves one
+behind (it is rethrown by `HandleResult` within the same call) -/
+theorem no_failure_left_stashed (C : Cfg) (W : World ω) (E : Engine σ) (hE : E.FailStop) (s : St σ ω)
+    (hp : s.g.pendingError = none) :
+    (∀ n t, (receiveT C W E s n t).2.g.pendingError = none) ∧ (∀ d t, (sendT C W E s d t).2.g.pendingError = none) := by
+  have F := noStashFrame W E hE
+  have fin : ∀ {α : Type} {o : Out α} {s' : St σ ω},
+      Post (fun s : St σ ω => s.g.pendingError = none) (fun _ => True) o s' → s'.g.pendingError = none := by
+    intro α o s' h
+    rcases h with h | ⟨_, h, _⟩ <;> exact h
+  exact ⟨fun n t => fin (F.receiveT C s n t hp), fun d t => fin (F.sendT C s d t hp)⟩
+
+end SockModel.Tls
+
+namespace SockModel.Tls
+open SockModel.Net
+
+/-! ### (T4) the negative counterpart, and why each engine hypothesis is needed
+
+Everything below is about COUNTER-MODELS (`Seeded.*`: the glue with the seeded change; engines that break the
+A-SSL hypotheses).  None of it is used by a driver. -/
+
+/-- an engine that reads once from its BIO and, whatever it got, wants more -/
+def wantsMoreEngine : Engine Unit where
+  sslRead _ n := .bioRead n (fun _ => .ret .wantRead [] ())
+  sslWrite _ d := .ret (.done d.length) [] ()
+  initFinished _ := true
+
+/-- a fresh socket over the scripted world `w` (Model/TlsBudget.lean: `TW`, a world that satisfies A-CLOCK by
+construction; with an empty script nothing ever becomes ready and every wait sits out its timeout), logging from now on -/
+def freshOn {σ : Type} (e : σ) (w : TW) : LSt σ TW := withLog { g := {}, e := e, w := w }
+
+/-- the glue as it is, on the history of `seeded_bioRead_doubles_the_wait`: `BioRead` waits `T` and writes the budget
+0 back, `HandleError(WANT_READ)` waits 0: the call returns at `T` -/
+theorem wantsMore_within_budget (C : Cfg) (hpos : 0 < C.stepsMax) (n : Nat) (T : Int) (hT : 0 < T) :
+    (receiveT C (logWorld TW.world) wantsMoreEngine (freshOn () {}) n T).1 = .ok [] ∧
+    logOf (receiveT C (logWorld TW.world) wantsMoreEngine (freshOn () {}) n T).2 = [⟨.rd, 0, T⟩, ⟨.rd, T, 0⟩] ∧
+    (receiveT C (logWorld TW.world) wantsMoreEngine (freshOn () {}) n T).2.w.1.clock = T := by
+  obtain ⟨i, hi⟩ : ∃ i, C.stepsMax = i + 1 := ⟨C.stepsMax - 1, by omega⟩
+  have h1 : ¬ (T < 0) := by omega
+  have h2 : ¬ (T ≤ 0) := by omega
+  simp [receiveT, tlsRead, handleLastError, handleError, setTimeout, freshOn, withLog, hi, readLoop, readRound, interp,
+    wantsMoreEngine, bioRead, receive, logWorld, TW.world, TW.elapsed, h1, h2, noteCall, handleResult, SslAns.toErr,
+    setLastError, waitUnder, underDeadline, remainingMs, logOf]
+  cases C.fixRecvReset <;> simp
+
+/-- **(T4) the seeded change `seeded/C07_r4_agentH` violates (T3).**  `BioRead` without the write-back
+(`Seeded.bioRead`), an engine that answers WANT_READ after one BIO read, a world that is never ready: for every
+`T > 0` and every receive size, `Receive(…, T)` waits `T` inside `BioRead` and then `T` again in
+`HandleError(WANT_READ)` - it returns "nothing" at `2·T`, and the second wait is issued at clock `T` with the
+argument `T` although nothing is left of the budget.  (`FailStop`, A-CLOCK and the starting state are as (T3) asks:
+see the examples below; `wantsMore_within_budget` is the same history on the glue as it is.) -/
+theorem seeded_bioRead_doubles_the_wait (C : Cfg) (hpos : 0 < C.stepsMax) (n : Nat) (T : Int) (hT : 0 < T) :
+    (Seeded.receiveT C (logWorld TW.world) wantsMoreEngine (freshOn () {}) n T).1 = .ok [] ∧
+    logOf (Seeded.receiveT C (logWorld TW.world) wantsMoreEngine (freshOn () {}) n T).2 = [⟨.rd, T, T⟩, ⟨.rd, T, 0⟩] ∧
+    (Seeded.receiveT C (logWorld TW.world) wantsMoreEngine (freshOn () {}) n T).2.w.1.clock = 2 * T ∧
+    ¬ LimitedOk TW.world T (freshOn () {}) (Seeded.receiveT C (logWorld TW.world) wantsMoreEngine (freshOn () {}) n T) := by
+  obtain ⟨i, hi⟩ : ∃ i, C.stepsMax = i + 1 := ⟨C.stepsMax - 1, by omega⟩
+  have h1 : ¬ (T < 0) := by omega
+  have h2 : ¬ (T ≤ 0) := by omega
+  have hr : Seeded.receiveT C (logWorld TW.world) wantsMoreEngine (freshOn () {}) n T
+      = (.ok [], { g := { lastError := if C.fixRecvReset then .none else .wantRead, remainingTime := 0,
+                          engCalls := [⟨true, [], .wantRead, true⟩] },
+                   e := (), w := ({ clock := T + T }, [⟨.rd, T, T⟩, ⟨.rd, T, 0⟩]) }) := by
+    simp [Seeded.receiveT, Seeded.tlsRead, handleLastError, handleError, setTimeout, freshOn, withLog, hi, Seeded.readLoop,
+      Seeded.readRound, Seeded.interp, Seeded.bioRead, wantsMoreEngine, bioRead, receive, logWorld, TW.world, TW.elapsed,
+      h1, h2, noteCall, handleResult, SslAns.toErr, setLastError, waitUnder, underDeadline, remainingMs]
+    cases C.fixRecvReset <;> simp
+  rw [hr]
+  refine ⟨rfl, rfl, by show T + T = 2 * T; omega, ?_⟩
+  intro h
+  have := h.2.1
+  simp only [freshOn, withLog, TW.world] at this
+  omega
+
+end SockModel.Tls
+
+namespace SockModel.Tls
+set_option linter.unusedSimpArgs false
+open SockModel.Net
+
+/-- an engine that calls its read BIO AGAIN after the callback reported a failure (libssl does not) -/
+def retryingEngine : Engine Unit where
+  sslRead _ n := .bioRead n (fun r => match r with
+    | none => .bioRead n (fun _ => .ret .wantRead [] ())
+    | some _ => .ret .wantRead [] ())
+  sslWrite _ d := .ret (.done d.length) [] ()
+  initFinished _ := true
+
+/-- **`FailStop` is needed (its first half), and the library relies on it.**  `UnderDeadline` does not write the budget
+back when the socket call throws (`auto res = fn(); deadline.Tick(); timeout = deadline.Remaining();`).  History:
+`Receive(…, 50)`; the descriptor is reported ready after 40 ms (POLLERR), `recv` fails (ECONNRESET), `BioRead` throws,
+the failure is stashed and -1 returned; an engine that now calls the read BIO again waits with the STALE budget 50 at
+clock 40, sits it out, and the call ends (with the stashed exception) at 90 > 50.  libssl returns at once with
+SSL_ERROR_SYSCALL after such a failure, so the real library does not get here; a write-back on the exception path
+would make the glue independent of that. -/
+theorem stale_budget_after_callback_failure :
+    let r := receiveT Cfg.current (logWorld TW.world) retryingEngine
+      (freshOn () { waits := [(true, 40)], recvs := [.fail 104] }) 16 50
+    r.1 = .exn (.system 104) ∧ logOf r.2 = [⟨.rd, 50, 40⟩, ⟨.rd, 50, 0⟩] ∧ r.2.w.1.clock = 90 ∧
+    ¬ Tls.FailStop (retryingEngine.sslRead () 16) := by
+  refine ⟨by decide, by decide, by decide, ?_⟩
+  intro h
+  cases h with
+  | bioRead _ hnone =>
+    obtain ⟨a, o, s, hk, _⟩ := hnone
+    simp at hk
+
+/-- an engine that invokes the write BIO with zero bytes before it reads (`BIO_write` never does: it returns early
+for `dlen <= 0`) -/
+def emptyWriteEngine : Engine Unit where
+  sslRead _ n := .bioWrite [] (fun _ => .bioRead n (fun _ => .ret .wantRead [] ()))
+  sslWrite _ d := .ret (.done d.length) [] ()
+  initFinished _ := true
+
+/-- **`FailStop` is needed (its second half).**  `BioWrite(data, 0)` with a limited budget: `SendSome` waits for
+"writable", times out, `sent == size` holds trivially and `remainingTime = deadline.Remaining()` is computed from a
+deadline that was never ticked: the full budget again.  History: `Receive(…, 50)` in a world that is never ready; the
+zero-byte write waits 50, the read waits 50 again: the call returns at 100. -/
+theorem stale_budget_after_empty_write :
+    (receiveT Cfg.current (logWorld TW.world) emptyWriteEngine (freshOn () {}) 16 50).1 = .ok [] ∧
+    logOf (receiveT Cfg.current (logWorld TW.world) emptyWriteEngine (freshOn () {}) 16 50).2
+      = [⟨.rd, 0, 100⟩, ⟨.rd, 50, 50⟩, ⟨.wr, 50, 0⟩] ∧
+    (receiveT Cfg.current (logWorld TW.world) emptyWriteEngine (freshOn () {}) 16 50).2.w.1.clock = 100 ∧
+    ¬ Tls.FailStop (emptyWriteEngine.sslRead () 16) := by
+  refine ⟨?_, ?_, ?_, ?_⟩
+  · simp [emptyWriteEngine, receiveT, sendT, tlsRead, tlsWrite, handleLastError, handleError, setTimeout, freshOn, withLog, readLoop, readRound, writeLoop, writeRound, writeRetry, roundDecreases, setPending, interp, bioRead, bioWrite, noteWrite, Net.sendSome, Net.sendAll, sendTry, sendNow, receive, recvNow, logWorld, TW.world, TW.elapsed, noteCall, handleResult, SslAns.toErr, setLastError, waitUnder, underDeadline, remainingMs, logOf, stash, Cfg.current, stepsMaxConst, SockModel.Consts.handshakeStepsMax]
+  · simp [emptyWriteEngine, receiveT, sendT, tlsRead, tlsWrite, handleLastError, handleError, setTimeout, freshOn, withLog, readLoop, readRound, writeLoop, writeRound, writeRetry, roundDecreases, setPending, interp, bioRead, bioWrite, noteWrite, Net.sendSome, Net.sendAll, sendTry, sendNow, receive, recvNow, logWorld, TW.world, TW.elapsed, noteCall, handleResult, SslAns.toErr, setLastError, waitUnder, underDeadline, remainingMs, logOf, stash, Cfg.current, stepsMaxConst, SockModel.Consts.handshakeStepsMax]
+  · simp [emptyWriteEngine, receiveT, sendT, tlsRead, tlsWrite, handleLastError, handleError, setTimeout, freshOn, withLog, readLoop, readRound, writeLoop, writeRound, writeRetry, roundDecreases, setPending, interp, bioRead, bioWrite, noteWrite, Net.sendSome, Net.sendAll, sendTry, sendNow, receive, recvNow, logWorld, TW.world, TW.elapsed, noteCall, handleResult, SslAns.toErr, setLastError, waitUnder, underDeadline, remainingMs, logOf, stash, Cfg.current, stepsMaxConst, SockModel.Consts.handshakeStepsMax]
+  · intro h
+    cases h with
+    | bioWrite hne _ _ => exact hne rfl
+
+/-- an engine that answers WANT_READ without having been told "retry" by its BIO -/
+def alwaysWantsRead : Engine Unit where
+  sslRead _ _ := .ret .wantRead [] ()
+  sslWrite _ d := .ret (.done d.length) [] ()
+  initFinished _ := false
+
+/-- the `-DNDEBUG` build of the code as it is -/
+def Cfg.ndebug : Cfg := { Cfg.current with asserts := false }
+
+/-- **`BlockingRead` is needed.**  What the model (and the code) does when the engine keeps answering WANT_READ under
+an unlimited timeout: `HandleError` waits (unlimited, comes back ready) and the loop goes round; after
+`handshakeStepsMax` rounds `Read` gives up: `assert(i < handshakeStepsMax)` in builds with assertions, and with
+`-DNDEBUG` `Receive(…, -1)` returns `nullopt` - "nothing" although the timeout is unlimited.  (Compare F9, where the
+same round limit cut a long `Send` short.)  With OpenSSL this needs WANT_READ from a blocking BIO, which
+SSL_MODE_AUTO_RETRY (the default since 1.1.1) rules out. -/
+theorem unlimited_receive_needs_blocking_engine :
+    (receiveT Cfg.ndebug (logWorld TW.world) alwaysWantsRead (freshOn () {}) 16 (-1)).1 = .ok [] ∧
+    (logOf (receiveT Cfg.ndebug (logWorld TW.world) alwaysWantsRead (freshOn () {}) 16 (-1)).2).length = Cfg.current.stepsMax ∧
+    (receiveT Cfg.current (logWorld TW.world) alwaysWantsRead (freshOn () {}) 16 (-1)).1
+      = .abort "assert(i < handshakeStepsMax) in Read" ∧
+    ¬ BlockingRead alwaysWantsRead := by
+  refine ⟨by decide, by decide, by decide, ?_⟩
+  intro h
+  have := h () 16
+  cases this with
+  | ret hp => exact hp.1 rfl
+
+/-! ### the hypotheses are satisfiable: a scripted world and a two-round engine -/
+
+/-- a small handshake: round 1 writes a hello and reads the reply (WANT_READ until it is there), later rounds read
+application data; after a failed callback it answers SSL_ERROR_SYSCALL at once; it never writes zero bytes -/
+def twoRoundEngine : Engine Nat where
+  sslRead st n :=
+    if st = 0 then
+      .bioWrite [22, 3, 1] (fun r => match r with
+        | none => .ret .syscallErr [] st
+        | some _ => .bioRead n (fun r => match r with
+          | none => .ret .syscallErr [] st
+          | some [] => .ret .wantRead [] st
+          | some _ => .ret .wantRead [] 1))
+    else
+      .bioRead n (fun r => match r with
+        | none => .ret .syscallErr [] st
+        | some [] => .ret .wantRead [] st
+        | some bs => .ret (.done bs.length) bs st)
+  sslWrite st d :=
+    if d = [] then .ret (.done 0) [] st
+    else .bioWrite d (fun r => match r with
+      | none => .ret .syscallErr [] st
+      | some 0 => .ret .wantWrite [] st
+      | some m => .ret (.done m) [] st)
+  initFinished st := st != 0
+
+example : twoRoundEngine.FailStop := by
+  constructor
+  · intro s n
+    unfold twoRoundEngine
+    simp only
+    split
+    · refine .bioWrite (by simp) ?_ ⟨_, _, _, rfl, rfl⟩
+      intro m
+      refine .bioRead ?_ ⟨_, _, _, rfl, rfl⟩
+      intro bs; cases bs <;> exact .ret
+    · refine .bioRead ?_ ⟨_, _, _, rfl, rfl⟩
+      intro bs; cases bs <;> exact .ret
+  · intro s d
+    unfold twoRoundEngine
+    simp only
+    split
+    · exact .ret
+    · rename_i hd
+      refine .bioWrite hd ?_ ⟨_, _, _, rfl, rfl⟩
+      intro m; cases m <;> exact .ret
+
+example : ClockOk TW.world := TW.clockOk
+example : ZeroFree TW.world := TW.clockOk.zeroFree
+example : UnlimitedReady TW.world := TW.unlimitedReady
+example : BlockingRead idleEngine → False := fun h => by have := h () 0; cases this with | ret hp => exact hp.1 rfl
+
+/-- (T3) at work: `Receive(16 bytes, 50 ms)` through the handshake.  The hello is written (writable after 3 ms), the
+reply arrives after 10 more ms; round 1 ends in WANT_READ and `HandleError` waits with what is left, 37 (the
+descriptor is ready at once); round 2 reads the application data (ready after 5 ms): four waits with the arguments
+50, 47, 37, 37, each within `50 - elapsed`; the call returns at 18 ≤ 50 with the budget 32 left. -/
+example :
+    (receiveT Cfg.current (logWorld TW.world) twoRoundEngine
+      (freshOn 0 { waits := [(true, 3), (true, 10), (true, 0), (true, 5)], recvs := [.data [22, 3, 2], .data [7, 8, 9]] }) 16 50)
+    = (.ok [7, 8, 9],
+       { g := { remainingTime := 32, wire := [22, 3, 1], bioWrites := [⟨[22, 3, 1], 3⟩],
+                engCalls := [⟨true, [], .done 3, true⟩, ⟨true, [], .wantRead, true⟩] },
+         e := 1,
+         w := ({ clock := 18 }, [⟨.rd, 37, 13⟩, ⟨.rd, 37, 13⟩, ⟨.rd, 47, 3⟩, ⟨.wr, 50, 0⟩]) }) := by
+  simp [twoRoundEngine, Int.min_def, receiveT, sendT, tlsRead, tlsWrite, handleLastError, handleError, setTimeout, freshOn, withLog, readLoop, readRound, writeLoop, writeRound, writeRetry, roundDecreases, setPending, interp, bioRead, bioWrite, noteWrite, Net.sendSome, Net.sendAll, sendTry, sendNow, receive, recvNow, logWorld, TW.world, TW.elapsed, noteCall, handleResult, SslAns.toErr, setLastError, waitUnder, underDeadline, remainingMs, logOf, stash, Cfg.current, stepsMaxConst, SockModel.Consts.handshakeStepsMax]
+
+/-- (T1) at work: the same history with timeout 0 - every wait has the argument 0 and the clock does not move -/
+example :
+    let r := receiveT Cfg.current (logWorld TW.world) twoRoundEngine
+      (freshOn 0 { waits := [(true, 3), (false, 10)], recvs := [] }) 16 0
+    r.1 = .ok [] ∧ logOf r.2 = [⟨.rd, 0, 0⟩, ⟨.rd, 0, 0⟩, ⟨.wr, 0, 0⟩] ∧ r.2.w.1.clock = 0 := by decide
+
+/-- (T2) at work: unlimited timeout, a short write: `SendAll` waits twice, both times with -1 -/
+example :
+    logOf (sendT Cfg.current (logWorld TW.world) twoRoundEngine
+      (freshOn 1 { waits := [(true, 3), (true, 4)], sends := [.accept 2] }) [1, 2, 3] (-1)).2
+      = [⟨.wr, -1, 3⟩, ⟨.wr, -1, 0⟩] ∧
+    (sendT Cfg.current (logWorld TW.world) twoRoundEngine
+      (freshOn 1 { waits := [(true, 3), (true, 4)], sends := [.accept 2] }) [1, 2, 3] (-1)).1 = .ok 3 := by
+  constructor <;> simp [twoRoundEngine, Int.min_def, receiveT, sendT, tlsRead, tlsWrite, handleLastError, handleError, setTimeout, freshOn, withLog, readLoop, readRound, writeLoop, writeRound, writeRetry, roundDecreases, setPending, interp, bioRead, bioWrite, noteWrite, Net.sendSome, Net.sendAll, sendTry, sendNow, receive, recvNow, logWorld, TW.world, TW.elapsed, noteCall, handleResult, SslAns.toErr, setLastError, waitUnder, underDeadline, remainingMs, logOf, stash, Cfg.current, stepsMaxConst, SockModel.Consts.handshakeStepsMax]
+
 end SockModel.Tls
